@@ -24,9 +24,10 @@ Definition check_case (c : case) : bool :=
    else true).
 
 (** the property on the observed behaviour: an accepted type returns every well-formed
-    value unchanged, and a struct with state only in unexported fields is rejected *)
+    value unchanged, and a type that contains (anywhere in its checkpointed part) a struct
+    whose state is invisible to the encoder is rejected *)
 Definition holds_on (c : case) : bool :=
   (if o_accept c
    then forallb (fun vo => negb (wf (c_ty c) (fst vo)) || ov_eqb (snd vo) (Some (fst vo))) (c_vals c)
    else true) &&
-  (negb (hidden_only (c_ty c)) || negb (o_accept c)) && negb (o_panic c).
+  (negb (contains_hidden (c_ty c)) || negb (o_accept c)) && negb (o_panic c).
